@@ -289,7 +289,12 @@ class HashWalkEngine:
         "and other representations. H1: hash equal <=> canonical form equal "
         "for all pairs of states of a walk; H2: stored hash after fit_model "
         "== hash recomputed from stored settings; H3: sampled walks "
-        "re-executed in a fresh interpreter under another PYTHONHASHSEED. "
+        "re-executed in a fresh interpreter under another PYTHONHASHSEED; "
+        "H4: a fitter without initial parameters, the same fitter given its "
+        "own choice explicitly and fit_model() without parameters agree. "
+        "Models include two harness models (constraint expression; "
+        "auxiliary parameters outside parameter_keys); some pipeline steps "
+        "come from a caller that edits one options dictionary in place. "
         "distinct = op-list digest; non-trivial = walk with >= 3 distinct "
         "canonical states and at least one representation-only or "
         "don't-care step")
